@@ -15,7 +15,9 @@ HDR = ("From Coq Require Import String ZArith List Bool.\nFrom SynRBL Require Im
        "Import ListNotations.\nOpen Scope string_scope. Open Scope Z_scope.\n")
 
 ALPHA = [("H2O", "O"), ("HCl", "Cl"), ("H2O", "OO"), ("water", "O"), ("bad", "XX"), ("OH-", "[OH-]"), ("e", ""),
-         ("NaCl", "[Na+].[Cl-]"), ("U", "[U]"), ("Cl2", "ClCl"), ("NH3", "N"), ("H3N", "N"), ("H2", "[H][H]"), ("bad2", "C1CC")]
+         ("NaCl", "[Na+].[Cl-]"), ("U", "[U]"), ("Cl2", "ClCl"), ("NH3", "N"), ("H3N", "N"), ("H2", "[H][H]"), ("bad2", "C1CC"),
+         # syntactically fine but chemically impossible: RDKit's sanitising parser rejects them
+         ("CH5x", "C(C)(C)(C)(C)C"), ("NH5", "[NH5]"), ("arom", "c1cccn1"), ("F2x", "F=F")]
 
 
 def atoms_of(s):
@@ -86,7 +88,7 @@ def run(ctx):
         ctx.evaluations += 1
         check_inv(ctx, starts[name], dup_pairs(starts[name]), {"start": name, "ops": []})
 
-    ops_alpha = [("add", f, s) for f, s in ALPHA[:9]] + [("remove", "H2O"), ("remove", "OH-"), ("remove", "nope"),
+    ops_alpha = [("add", f, s) for f, s in ALPHA[:9]] + [("add",) + ALPHA[14]] + [("remove", "H2O"), ("remove", "OH-"), ("remove", "nope"),
                  ("many", [ALPHA[0], ALPHA[4], ALPHA[5]]), ("many", [ALPHA[3], ALPHA[1]])]
     L = 3 if ctx.quick() else 4
     hist = []
@@ -148,8 +150,11 @@ Definition hck (n : nat) (ops : list op) (e : list (string * string * dict)) (re
         rejs = []
         acc = rej = 0
         buf = io.StringIO()
+        crashed = False
         with contextlib.redirect_stdout(buf):
             for o in seq:
+                if crashed:
+                    break
                 before = copy.deepcopy(m.database)
                 if o[0] == "add":
                     try:
@@ -158,6 +163,10 @@ Definition hck (n : nat) (ops : list op) (e : list (string * string * dict)) (re
                     except ValueError:
                         rej += 1
                         rejected = True
+                    except Exception as e:
+                        ctx.fail("operation-raised", {"start": start, "ops": seq}, {"op": o, "error": "%s: %s" % (type(e).__name__, e)})
+                        crashed = True
+                        continue
                     # property: rejected <=> duplicate formula / duplicate smiles / invalid; a rejection changes nothing
                     should = (any(d["formula"] == o[1] for d in before) or any(d["smiles"] == o[2] for d in before) or true_comp(o[2]) is None)
                     if rejected != should:
@@ -165,11 +174,21 @@ Definition hck (n : nat) (ops : list op) (e : list (string * string * dict)) (re
                     if rejected and m.database != before:
                         ctx.fail("reject-changed-database", {"start": start, "ops": seq}, {"op": o})
                 elif o[0] == "many":
-                    r = m.add_entries([{"formula": f, "smiles": s} for f, s in o[1]])
+                    try:
+                        r = m.add_entries([{"formula": f, "smiles": s} for f, s in o[1]])
+                    except Exception as e:
+                        ctx.fail("operation-raised", {"start": start, "ops": seq}, {"op": o, "error": "%s: %s" % (type(e).__name__, e)})
+                        crashed = True
+                        continue
                     rejs.append([(e["formula"], e["smiles"]) for e in r])
                     acc += len(o[1]) - len(r); rej += len(r)
                 else:
-                    m.remove_entry(o[1])
+                    try:
+                        m.remove_entry(o[1])
+                    except Exception as e:
+                        ctx.fail("operation-raised", {"start": start, "ops": seq}, {"op": o, "error": "%s: %s" % (type(e).__name__, e)})
+                        crashed = True
+                        continue
                     named = [d for d in before if d["formula"] == o[1]]
                     exp = list(before)
                     if named:
@@ -177,6 +196,8 @@ Definition hck (n : nat) (ops : list op) (e : list (string * string * dict)) (re
                     if m.database != exp:
                         ctx.fail("remove-deleted-wrong-entries", {"start": start, "ops": seq}, {"op": o})
         ctx.evaluations += 1
+        if crashed:
+            continue
         if acc and rej:
             ctx.nontrivial.add((start, json.dumps(seq)))
         check_inv(ctx, m.database, start_dups, {"start": start, "ops": seq})
